@@ -163,6 +163,86 @@ fn is_alloc_failure(stderr: &str) -> bool {
     stderr.contains("memory allocation of") || stderr.contains("out of memory")
 }
 
+/// Thorough tier: run a cargo-fuzz target (libFuzzer, fixed -runs and -seed, fresh corpus
+/// seeded from /verif/corpus) whose body is the property's own oracle. A crash artifact is
+/// turned into a replay record of kind `fuzz:<target>`.
+fn fuzz_stage(id: &str, target: &str, runs: u64, max_len: usize, seed: u64, root: &str, known: &Known) -> (Map<String, Value>, Vec<Value>) {
+    let mut info = Map::new();
+    let mut found = vec![];
+    info.insert("target".into(), json!(target));
+    info.insert("runs_requested".into(), json!(runs));
+    let work = format!("{}/harness/target/fuzz-{}-{}", root, id, target);
+    let _ = std::fs::remove_dir_all(&work);
+    let corpus = format!("{}/corpus", work);
+    let artifacts = format!("{}/artifacts/", work);
+    let _ = std::fs::create_dir_all(&corpus);
+    let _ = std::fs::create_dir_all(&artifacts);
+    // seed corpus: the committed small programs (text targets only)
+    if target == "reader" || target == "highlight" {
+        if let Ok(rd) = std::fs::read_dir(format!("{}/corpus", root)) {
+            for e in rd.filter_map(|e| e.ok()) {
+                let _ = std::fs::copy(e.path(), format!("{}/{}", corpus, e.file_name().to_string_lossy()));
+            }
+        }
+    }
+    let start = Instant::now();
+    let out = Command::new("cargo")
+        .current_dir(format!("{}/harness/fuzz", root))
+        .env("VERIF_ROOT", root)
+        .args(["+nightly", "fuzz", "run", "-s", "none", target, &corpus, "--"])
+        .arg(format!("-runs={}", runs))
+        .arg(format!("-seed={}", (seed % 4_000_000_000) + 1))
+        .arg(format!("-max_len={}", max_len))
+        .arg("-len_control=0")
+        .arg(format!("-artifact_prefix={}", artifacts))
+        .stdin(Stdio::null())
+        .output();
+    info.insert("wall_s".into(), json!(start.elapsed().as_secs_f64().round()));
+    match out {
+        Err(e) => {
+            info.insert("skipped".into(), json!(format!("cargo fuzz could not be started: {}", e)));
+        }
+        Ok(o) => {
+            let text = String::from_utf8_lossy(&o.stderr).to_string();
+            let done = text
+                .lines()
+                .rev()
+                .find_map(|l| l.strip_prefix("Done ").and_then(|r| r.split(' ').next()).and_then(|n| n.parse::<u64>().ok()));
+            if let Some(n) = done {
+                info.insert("runs_done".into(), json!(n));
+            }
+            if let Some(l) = text.lines().rev().find(|l| l.contains(" cov: ")) {
+                info.insert("last_status".into(), json!(l.trim()));
+            }
+            let crashed = !o.status.success();
+            let mut arts: Vec<String> = std::fs::read_dir(&artifacts)
+                .map(|rd| rd.filter_map(|e| e.ok()).map(|e| e.path().to_string_lossy().to_string()).collect())
+                .unwrap_or_default();
+            arts.sort();
+            if crashed && arts.is_empty() && done.is_none() {
+                let tail: Vec<&str> = text.lines().rev().take(6).collect();
+                info.insert("skipped".into(), json!(format!("fuzz build or run failed: {}", tail.into_iter().rev().collect::<Vec<_>>().join(" | "))));
+            }
+            for a in arts {
+                if let Ok(bytes) = std::fs::read(&a) {
+                    let vline = text.lines().find(|l| l.starts_with("FUZZ-VIOLATION")).unwrap_or("").to_string();
+                    let sig = vline.split("sig=").nth(1).and_then(|r| r.split(" :: ").next()).unwrap_or("").to_string();
+                    let sig = if sig.is_empty() { format!("{}|fuzz:{}|crash", id, target) } else { sig };
+                    if known.lookup(id, &sig).is_none() {
+                        found.push(json!({
+                            "property": id, "kind": format!("fuzz:{}", target),
+                            "payload": {"bytes": mwv_core::choice::hex(&bytes)},
+                            "sig": sig, "detail": format!("found by libFuzzer target {}: {}", target, vline), "seed": seed, "tier": "thorough",
+                        }));
+                    }
+                }
+            }
+        }
+    }
+    let _ = std::fs::remove_dir_all(&work);
+    (info, found)
+}
+
 pub fn write_replay(id: &str, v: &Value) -> String {
     let root = verif_root();
     let _ = std::fs::create_dir_all(format!("{}/replays", root));
@@ -502,6 +582,16 @@ pub fn check(id: &str, tier: Tier, seed: u64) -> i32 {
         }
     }
 
+    // ---- coverage-guided stage (thorough tier only): libFuzzer over the same oracle
+    let mut fuzz_info = Map::new();
+    if tier == Tier::Thorough {
+        if let Some((target, runs, max_len)) = prop.fuzz_stage() {
+            let (info, found) = fuzz_stage(id, target, runs, max_len, seed, &root, &known);
+            fuzz_info = info;
+            violations.extend(found);
+        }
+    }
+
     // ---- merge
     let mut evaluations = 0u64;
     let mut nontrivial: BTreeSet<u64> = BTreeSet::new();
@@ -614,6 +704,9 @@ pub fn check(id: &str, tier: Tier, seed: u64) -> i32 {
     }
     for (k, v) in extra {
         coverage.insert(k, v);
+    }
+    if !fuzz_info.is_empty() {
+        coverage.insert("coverage_guided_stage".into(), Value::Object(fuzz_info));
     }
     let ev = json!({
         "property_id": id,
